@@ -153,7 +153,7 @@ class TypeInfo:
                 for f in glob.glob(os.path.join(d, "src/**/*.rs"), recursive=True):
                     try:
                         self._scan(open(f).read(), only_enums={"Expr", "Lit", "Fields", "Data", "Meta", "GenericParam", "Type", "Item", "PathArguments",
-                                                               "GenericArgument", "ImplItem", "Member"}, structs_ok={"Flag", "ExprLit", "NameValue", "NameArgs"})
+                                                               "GenericArgument", "ImplItem", "Member"}, structs_ok={"Flag", "ExprLit", "NameValue", "NameArgs", "Path", "PathSegment"})
                     except OSError:
                         pass
 
